@@ -173,6 +173,9 @@ pub fn check_value<F: Fam>(reg: &Registry, rep: &mut Report, seed: u64, i: u64, 
             }
         }
     }
+    if schema.loose {
+        return;
+    }
     let mut rng = Rng::derive("derive/reframe", seed, fnv64(ty.as_bytes()), i);
     // documented re-framings: field containers and inner collections indefinite, wider heads
     for k in 0..2 {
